@@ -132,7 +132,10 @@ func rulesC20(c *Ctx) {
 		kindAt := func(b *ssa.BasicBlock) (int64, bool) {
 			for k := range facts.At(b) {
 				bo, ok := k.v.(*ssa.BinOp)
-				if !ok || bo.Op != token.EQL || !k.pol || dataType == nil || bo.X != ssa.Value(dataType) {
+				if !ok || dataType == nil || bo.X != ssa.Value(dataType) {
+					continue
+				}
+				if !((bo.Op == token.EQL && k.pol) || (bo.Op == token.NEQ && !k.pol)) {
 					continue
 				}
 				if kv, ok := constInt(bo.Y); ok {
@@ -368,13 +371,25 @@ func rulesC20(c *Ctx) {
 		return
 	}
 	var onFile *ssa.Function
-	for _, g := range withClosures(load) {
-		if g == load {
-			continue
+	for _, g0 := range withClosures(load) {
+		for _, g := range reachableSamePkg(g0, 2) {
+			if g == load {
+				continue
+			}
+			for _, ci := range Calls(g) {
+				if ci.Static != nil && ci.Static.Name() == "JSONToPlainStringMap" {
+					onFile = g
+				}
+			}
 		}
-		for _, ci := range Calls(g) {
-			if ci.Static != nil && ci.Static.Name() == "JSONToPlainStringMap" {
-				onFile = g
+	}
+	// also package-level helpers handed to the loop as callbacks
+	if onFile == nil {
+		for _, g := range c.P.PkgFuncs("i18n/fsi18loader") {
+			for _, ci := range Calls(g) {
+				if ci.Static != nil && ci.Static.Name() == "JSONToPlainStringMap" {
+					onFile = g
+				}
 			}
 		}
 	}
